@@ -29,7 +29,7 @@ info('C14',
      'P: (1) suzuki_trotter_decomposition + suzuki_trotter_time_steps: for every order in {1,2,4,"4_opt"} and every N_steps >= 0 '
      'the step weights sum to exactly N_steps on both bond parities (list repetition by a symbolic count handled as segment list). '
      '(2) accounting: run_evolution of TEBDEngine, RandomUnitaryEvolution, ExpMPOEvolution, TwoSiteTDVPEngine and the '
-     'time-dependent drivers (TimeDependentTEBD/ExpMPO/TwoSiteTDVP) verified from the real source, with the leaf updates '
+     'time-dependent drivers (TimeDependentTEBD/ExpMPO/TwoSiteTDVP/SingleSiteTDVP), plus SingleSiteTDVPEngine and QRBasedTEBDEngine, verified from the real source, with the leaf updates '
      '(evolve_step, sweep, prepare_evolve) abstract and a ghost accumulator `performed`: '
      'trunc_err.eps == old + performed and evolved_time == old + N_steps*dt for every N_steps; a static frame obligation '
      '(AST scan) shows no other function assigns self.trunc_err/self.evolved_time. TruncationError.__add__/copy/from_norm. '
